@@ -74,7 +74,18 @@ def gen_tree(rng, depth):
 
 
 def gen_math(rng):
-    return N("math", [gen_tree(rng, rng.randrange(1, 5)) for _ in range(rng.choice([1, 1, 1, 2, 3, 0]))])
+    t = N("math", [gen_tree(rng, rng.randrange(1, 5)) for _ in range(rng.choice([1, 1, 1, 2, 3, 0]))])
+    # author ids (distinct) on a share of the elements: the lifts merge attributes (add_attrs), everything else carries or drops them with the element
+    mode = rng.random()
+    if mode < 0.6:
+        k = 0
+        for x in t.walk():
+            if rng.random() < (0.5 if mode < 0.4 else 1.0):
+                x.attrs["id"] = "a%d" % k
+                k += 1
+            if x.tag in ("mrow", "mstyle", "mpadded") and rng.random() < 0.15:
+                x.attrs[rng.choice(["mathcolor", "data-x", "width", "onclick", "class"])] = "v"
+    return t
 
 
 WS = set("\t\n\x0b\x0c\r \x85\xa0                　")
@@ -156,7 +167,7 @@ def shape_of_xml(xml):
             kids.append(e.text)
         for c in e:
             kids.append(rec(c))
-        return {"n": tag, "i": "intent" in e.attrib, "c": kids}
+        return {"n": tag, "i": "intent" in e.attrib, "id": e.attrib.get("id"), "c": kids}
     return rec(root)
 
 
@@ -167,7 +178,7 @@ def norm_shape(j):
     # a leaf's text children joined; white-space-only text directly inside containers does not occur after trim_element
     if kids and all(isinstance(k, str) for k in kids):
         kids = ["".join(kids)]
-    return {"n": j["n"], "i": bool(j["i"]), "c": kids}
+    return {"n": j["n"], "i": bool(j["i"]), "id": j.get("id"), "c": kids}
 
 
 def run(ctx, im, mo, n_trees, extra=()):
